@@ -500,7 +500,7 @@ func c15Finish(c *engine.Ctx, cov map[string]interface{}) string {
 func init() {
 	register(&engine.Check{
 		ID: "C15", Level: "exploration",
-		Rule: "Position on all texts ≤5 (7) atoms over {a, \\n, \\r, \\r\\n, U+2028, U+2029, é, 😀, \\t, U+200B} × every offset in [-1,len+1] vs a reference that counts the five break kinds and code points; the elision family (one line of L∈{57..66,80,100,120} distinct characters with a wide/non-printable character at each cut point ±1, preceded by 0/1/9999/100000 lines) × every offset: context shape, caret under the character at the offset, ellipses consistent, at most ~60 characters; every JS seed program (and pairs joined by every line-break kind) and every generated JSON document × every token boundary × illegal characters {@ \\ # U+2019 NUL}: the *parse.Error must carry exactly that position; every *parse.Error produced on the C01 spaces corresponds to Position(input, o) for an offset inside the input (the cursor offset for the lexers)",
+		Rule:        "Position on all texts ≤5 (7) atoms over {a, \\n, \\r, \\r\\n, U+2028, U+2029, é, 😀, \\t, U+200B} × every offset in [-1,len+1] vs a reference that counts the five break kinds and code points; the elision family (one line of L∈{57..66,80,100,120} distinct characters with a wide/non-printable character at each cut point ±1, preceded by 0/1/9999/100000 lines) × every offset: context shape, caret under the character at the offset, ellipses consistent, at most ~60 characters; every JS seed program (and pairs joined by every line-break kind) and every generated JSON document × every token boundary × illegal characters {@ \\ # U+2019 NUL}: the *parse.Error must carry exactly that position; every *parse.Error produced on the C01 spaces corresponds to Position(input, o) for an offset inside the input (the cursor offset for the lexers)",
 		Assumptions: []string{"CRLF and multi-byte characters are indivisible: an offset inside one is the position of its first byte", "elision is checked by its properties (contiguous piece, ≤66 characters, caret alignment, ellipses), not by re-implementing the constants"},
 		Setup:       c15Setup, Work: c15Work, Finish: c15Finish,
 	})
